@@ -10,6 +10,8 @@ CONSTANT LazyCtrl   \* TRUE: the control side takes a completion only when anoth
                     \* (or at the very end) - back-pressure on the completion path with requests queued behind
 AllReported == NumIssued = MaxMig /\ \A h \in GPUs : Len(done[h]) = Len(issued[h])
 ScenFrames == [g \in GPUs |-> {0, 8, 16}]
+ScenPages == [g \in GPUs |-> {0, 8}]   \* frame 16 of every GPU is free at the start
+ScenPagesCtrl == [g \in GPUs |-> IF g = 1 THEN {} ELSE {0, 8, 16}]
 
 SInit == Init /\ act = [a |-> "Init"]
 Aw(e, g) == act' = [a |-> "Await", e |-> e, g |-> g]
@@ -35,8 +37,9 @@ SNext ==
      /\ \E g \in Requesters, o \in GPUs, n \in 1..FrameChunks :
           /\ o # g
           /\ \E sb \in MCFrames[o], db \in MCFrames[g] :
-               /\ Stable(o, sb) /\ Fresh(g, db)
-               /\ EnvMig(g, [id |-> NextReqId, from |-> sb, to |-> db, n |-> n, owner |-> o, src |-> "CP"])
+               /\ SrcOK(o, sb) /\ DstOK(g, db)
+               /\ EnvMig(g, [id |-> NextReqId, from |-> sb, to |-> db, n |-> n, owner |-> o, src |-> "CP",
+                             snap |-> ReadMem(o, sb, n * Unit)])
                /\ act' = [a |-> "EnvMig", g |-> g, from |-> sb, to |-> db, n |-> n, owner |-> o]
 SSpec == SInit /\ [][SNext]_<<vars, act>>
 =============================================================================
